@@ -174,7 +174,9 @@ SetOuter == Can /\ \E o \in {"list3", "list1", "map"} : o # w.outer
               /\ w' = [w EXCEPT !.outer = o] /\ ops' = Append(ops, Op("outer", o, "")) /\ UNCHANGED res
 SetPlKind == Can /\ w.plk = "map"
               /\ w' = [w EXCEPT !.plk = "notmap"] /\ ops' = Append(ops, Op("plkind", "notmap", "")) /\ UNCHANGED res
-SetSig   == Can /\ \E q \in {"garbage", "empty", "truncated", "string", "rawrs", "dersmall", "zeros"} : q # w.sig.q
+\* "noncanon": a genuine signature of the signer over a NON-canonical encoding of the signed part (its two entries in the
+\* other order), the envelope being sent in that form; verification is over the canonical encoding of what was decoded
+SetSig   == Can /\ \E q \in {"garbage", "empty", "truncated", "string", "rawrs", "dersmall", "zeros", "noncanon"} : q # w.sig.q
               /\ w' = [w EXCEPT !.sig.q = q] /\ ops' = Append(ops, Op("sig", q, "")) /\ UNCHANGED res
 
 DoDecode == res = Idle /\ \E d \in Decoders :
